@@ -23,6 +23,7 @@ Which value a derivative routine "names":
 (whether the *sums* equal the explicit modal sums is C10, whether the sequences equal the scalar forms
 on every coordinate shape is C08.)
 """
+import json
 import math
 
 import numpy as np
@@ -362,6 +363,92 @@ def run_poly1d_seq(case, seed, R):
 
 
 # =================================================================================================
+# coordinate dtype alphabet: integer arrays, Python / numpy integer scalars, float32 (values are judged, result dtype is not)
+
+IPTS = {(-1, 1): [-1, 0, 1], (-3, 3): [-3, -2, -1, 0, 1, 2, 3], (0, 8): [0, 1, 2, 3, 5, 8]}
+
+
+def run_poly1d_dtype(case, seed, R):
+    name, n, par = case['fam'], case['n'], case['par']
+    fam = FAMS[name]
+    orders = list(range(n + 1))
+    orc = value_oracle(R, fam, name, orders, par)
+    if orc is None:
+        return
+    ip = IPTS[tuple(fam['dom'])]
+    xf = np.array(ip, dtype=np.float64)
+    want = orc.der(xf)               # (n+1, npts): the derivative of the value routine at the same points, float64
+    co, ci = orc.cond(xf)
+    cd = co + ci
+    forms = [('float64', np.array(ip, dtype=np.float64), EPS), ('int64', np.array(ip, dtype=np.int64), EPS),
+             ('int32', np.array(ip, dtype=np.int32), EPS), ('float32', np.array(ip, dtype=np.float32), EPS32)]
+    for dn, xa, eps in forms:
+        tol_c = float(cd[n]) if eps == EPS else float(co[n] * EPS / EPS32 + ci[n])
+        sig = f'{name}_der:{ncls(n)}:dtype={dn}'
+        got = R.call(fam['der'], n, xa, *par, sig=sig + ':exception')
+        close(R, got, want[n], tol_c, sig, f'{name}_der({n}, {par}) on a {dn} array {ip}', eps=eps)
+        sigs = f'{name}_der_seq:dtype={dn}'
+        got = R.call(fam['seq'], orders, xa, *par, sig=sigs + ':exception')
+        if got is not FAILED and R.expect(np.asarray(got).shape == want.shape, sigs + ':shape', f'shape {np.asarray(got).shape}'):
+            for i in orders:
+                tc = float(cd[i]) if eps == EPS else float(co[i] * EPS / EPS32 + ci[i])
+                close(R, np.asarray(got)[i], want[i], tc, f'{name}_der_seq:{ncls(i)}:dtype={dn}', f'{name}_der_seq({orders}, {par}) row {i} on a {dn} array', eps=eps)
+    for dn, conv in (('pyint', int), ('npint', np.int64), ('npfloat32', np.float32), ('pyfloat', float)):
+        sig = f'{name}_der:{ncls(n)}:dtype={dn}'
+        for j, v in enumerate(ip):
+            got = R.call(fam['der'], n, conv(v), *par, sig=sig + ':exception')
+            eps = EPS32 if dn == 'npfloat32' else EPS
+            tol_c = float(cd[n]) if eps == EPS else float(co[n] * EPS / EPS32 + ci[n])
+            close(R, got, want[n][j], tol_c, sig, f'{name}_der({n}, {par}) at the {dn} scalar {v}', eps=eps)
+    R.nontrivial(n >= 1)
+    R.outcome('dtype')
+
+
+def run_zernike_dtype(case, seed, R):
+    n, m, norm = case['n'], case['m'], case['norm']
+    orc = zern_oracle(R, n, m, norm)
+    if orc is None:
+        return
+    rp = [0, 1, 1, 0, 1]
+    tv = np.array([0.3, 0.3, 2.0, 4.5, 5.9])
+    wr = orc.eval(np.array(rp, dtype=float), tv, dr=1)[np.arange(5), np.arange(5)]
+    wt = orc.eval(np.array(rp, dtype=float), tv, dt=1)[np.arange(5), np.arange(5)]
+    cr = sum(orc.cond(ZR, ZT, dr=1))
+    ct = sum(orc.cond(ZR, ZT, dt=1))
+    cell = f'{ncls((n - abs(m)) // 2).replace("n", "nj")}:{mcls(m)}'
+    for dn, ra, eps in (('int64', np.array(rp, dtype=np.int64), EPS), ('int32', np.array(rp, dtype=np.int32), EPS), ('float32', np.array(rp, dtype=np.float32), EPS32)):
+        ta = tv.astype(np.float32) if dn == 'float32' else tv.copy()
+        # the property is about the derivative OF THE VALUE ROUTINE: where zernike_nm itself rejects the coordinate dtype (integer
+        # arrays with n_j = 0: in-place float*int) there is nothing to differentiate and the case is recorded, not judged
+        try:
+            R.tick()
+            P.zernike_nm(n, m, ra.copy(), ta.copy(), norm=norm)
+        except Exception:   # noqa
+            R.outcome('value-routine-rejects-dtype')
+            continue
+        out = R.call(P.zernike_nm_der, n, m, ra, ta, norm=norm, sig=f'zernike_nm_der:{cell}:dtype={dn}:exception')
+        if out is FAILED or not R.expect(isinstance(out, tuple) and len(out) == 2, 'zernike_nm_der:return', 'does not return (dr, dt)'):
+            continue
+        if dn == 'float32':
+            t64 = ta.astype(float)
+            w_r = orc.eval(np.array(rp, dtype=float), t64, dr=1)[np.arange(5), np.arange(5)]
+            w_t = orc.eval(np.array(rp, dtype=float), t64, dt=1)[np.arange(5), np.arange(5)]
+        else:
+            w_r, w_t = wr, wt
+        close(R, out[0], w_r, cr * (EPS / eps) + (n + 1) * np.max(np.abs(w_r)) + 1e-30, f'zernike_nm_der:dr:{cell}:dtype={dn}', f'dZ/dr of Z({n},{m}) with {dn} r {rp}', eps=eps)
+        close(R, out[1], w_t, ct * (EPS / eps) + (n + 1) * np.max(np.abs(w_t)) + 1e-30, f'zernike_nm_der:dt:{cell}:dtype={dn}', f'dZ/dt of Z({n},{m}) with {dn} r {rp}', eps=eps)
+    for dn, conv in (('pyint', int), ('npint', np.int64)):
+        for j in (1, 3):
+            out = R.call(P.zernike_nm_der, n, m, conv(rp[j]), float(tv[j]), norm=norm, sig=f'zernike_nm_der:{cell}:dtype={dn}:exception')
+            if out is FAILED or not R.expect(isinstance(out, tuple) and len(out) == 2, 'zernike_nm_der:return', 'does not return (dr, dt)'):
+                continue
+            close(R, out[0], wr[j], cr, f'zernike_nm_der:dr:{cell}:dtype={dn}', f'dZ/dr of Z({n},{m}) at the {dn} scalar r={rp[j]}')
+            close(R, out[1], wt[j], ct, f'zernike_nm_der:dt:{cell}:dtype={dn}', f'dZ/dt of Z({n},{m}) at the {dn} scalar r={rp[j]}')
+    R.nontrivial(n >= 1)
+    R.outcome('dtype')
+
+
+# =================================================================================================
 # threshold orders (overflow points of factorial / gamma / Pochhammer, n = 171), Jacobi family
 
 HORD = [60, 100, 170, 171, 172, 200, 256]
@@ -694,9 +781,11 @@ def q2d_structure(st, k, seed):
 
 
 def q2d_stcls(st):
-    """Structure class: length class of the m=0 list and whether any azimuthal list has length 1."""
+    """Structure class: length class of the m=0 list, whether any azimuthal list has length 1, and the sparsity of the azimuthal orders."""
     Lc = st['c']
-    return 'cm0:' + ('none' if Lc == 0 else lcls(Lc)) + ':ab:' + ('len=1' if any(min(a, b) == 1 for a, b in st['ab']) else 'len>1')
+    lens = [x for ab in st['ab'] for x in ab if x > 0]
+    sparse = 'gap' if any(a == 0 and b == 0 for a, b in st['ab']) else ('one-sided' if any((a == 0) != (b == 0) for a, b in st['ab']) else 'full')
+    return 'cm0:' + ('none' if Lc == 0 else lcls(Lc)) + ':ab:' + ('len=1' if 1 in lens else 'len>1') + ':' + sparse
 
 
 def q2d_where(st, k):
@@ -721,7 +810,7 @@ def run_zprime_q2d(case, seed, R):
     st, k = case['st'], case['k']
     cm0, ams, bms = q2d_structure(st, k, seed)
     M = len(st['ab'])
-    degr = max([2 * st['c'] + 2] + [mi + 1 + 2 * (max(a, b) - 1) for mi, (a, b) in enumerate(st['ab'])])
+    degr = max([2 * st['c'] + 2] + [mi + 1 + 2 * (max(a, b) - 1) for mi, (a, b) in enumerate(st['ab']) if max(a, b) > 0])
     sig = f'compute_z_zprime_Q2d:{q2d_stcls(st)}'
 
     def call(u, t, coefs=None):
@@ -856,11 +945,12 @@ def ccls(c):
 
 def run_q2d_and_der(case, seed, R):
     c, k, dx, dy, kk, Rn = case['c'], case['k'], case['dx'], case['dy'], case['coef'], case['Rn']
+    st = case.get('st', QST)
     if kk == -2:
-        cm0, ams, bms = q2d_structure(QST, 0, seed)
-        cm0[0] = 0.0
+        cm0, ams, bms = q2d_structure(st, -1, seed)
+        cm0, ams, bms = [0.0 * v for v in cm0], [[0.0 * v for v in a] for a in ams], [[0.0 * v for v in b] for b in bms]
     else:
-        cm0, ams, bms = q2d_structure(QST, kk, seed)
+        cm0, ams, bms = q2d_structure(st, kk, seed)
     scale_q = 0.05    # Q departure comparable to the base conic sag over the aperture
     # float64 ndarray coefficients, the same objects in every call of the case (the hygiene layer of R.call watches them)
     cm0 = np.array(cm0) * scale_q
@@ -871,7 +961,8 @@ def run_q2d_and_der(case, seed, R):
     Rg, Tg = np.meshgrid(rr, CT, indexing='ij')
     # the structure QST holds one length-1 list (its coefficient is the last one); the dense vector includes it
     cell = f'{ccls(c)}:{kcls(k)}:{ocls(dx, dy)}:' + ('R=1' if Rn == 1 else 'R!=1') + ':' + \
-        ('base-only' if kk == -2 else ('q:len=1' if kk in (-1, QN - 1) else 'q:len>1'))
+        ('base-only' if kk == -2 else ('q:len=1' if 'len=1' in (q2d_stcls(st) if kk == -1 else q2d_where(st, kk)) else 'q:len>1')) + \
+        ('' if 'st' not in case else ':' + q2d_stcls(st).split(':')[-1])
     sig = f'Q2d_and_der:{cell}'
     bad = []
 
@@ -920,6 +1011,8 @@ def plan(tier, seed):
     seq_cases = [{'fam': f, 'par': p, 'ns': ns} for ns in ns_lists for f, p in fps]
     hfp = [('legendre', [])] + [(f'cheby{i}', []) for i in (1, 2, 3, 4)] + [('jacobi', ab) for ab in HJAC]
     high_cases = [{'fam': f, 'par': p, 'n': n} for n in (HORD if q else HORD + [129, 300, 513]) for f, p in hfp]
+    dt_cases = [{'fam': f, 'par': p, 'n': n} for n in range(5) for f, p in fps]
+    zdt_cases = [{'n': n, 'm': m, 'norm': True} for n in range(5) for m in range(-n, n + 1, 2)]
     nms = [(n, m) for n in range(ZN + 1) for m in range(-n, n + 1, 2)]
     z_cases = [{'n': n, 'm': m, 'norm': norm} for (n, m) in nms for norm in (True, False)]
     nms6 = [[n, m] for n in range(7) for m in range(-n, n + 1, 2)]
@@ -943,6 +1036,24 @@ def plan(tier, seed):
             structs.append({'c': Lc, 'ab': [ab1, lens[(i + 1) % len(lens)], lens[(i + 2) % len(lens)]]})
         structs.append({'c': Lc, 'ab': [[2, 2]] * (4 if q else 6)})
     zq_cases = [{'st': st, 'k': k} for st in structs for k in list(range(st['c'] + sum(a + b for a, b in st['ab']))) + [-1]]
+    # every sparsity pattern of the azimuthal orders: every non-empty subset of {1..MS} populated, the other orders given as empty lists,
+    # x four (len a, len b) assignments (two-sided unequal, cosine only, sine only, mixed incl. one-sided and length 1) x cm0 absent / present
+    MS = 4 if q else 5
+    variants = [lambda i: [2, 3], lambda i: [3, 0], lambda i: [0, 2], lambda i: [[4, 1], [0, 3], [2, 0], [1, 2], [3, 3]][i % 5]]
+    sparse_structs, sparse_variant, seen_st = [], [], set()
+    for mask in range(1, 2 ** MS):
+        pop = [mm for mm in range(1, MS + 1) if mask >> (mm - 1) & 1]
+        for vi, var in enumerate(variants):
+            for Lc in (0, 2):
+                ab = [var(pop.index(mm)) if mm in pop else [0, 0] for mm in range(1, max(pop) + 1)]
+                key = json.dumps([Lc, ab])
+                if key not in seen_st:
+                    seen_st.add(key)
+                    sparse_structs.append({'c': Lc, 'ab': ab})
+                    sparse_variant.append(vi)
+    zs_sparse_cases = [{'st': st, 'k': k} for st in sparse_structs for k in list(range(st['c'] + sum(a + b for a, b in st['ab']))) + [-1]]
+    known = {json.dumps(c, sort_keys=True) for c in zq_cases}
+    zs_sparse_cases = [c for c in zs_sparse_cases if json.dumps(c, sort_keys=True) not in known]
     CS = [1 / 50, -1 / 80, 0, 0.0]      # c exactly zero (flat base), as int and as float
     KS = [0, -1, -0.6, 0.5, -2]
     OFF = [[0, 0], [5, 0], [0, 5], [-3, 0], [0, -7.5]] if q else [[0, 0], [5, 0], [0, 5], [-3, 0], [0, -7.5], [12, 0], [0, 0.25]]
@@ -951,6 +1062,9 @@ def plan(tier, seed):
     nq = QN
     RNS = [1, 0.5, 25]
     qd_cases = [{'c': c, 'k': k, 'dx': dx, 'dy': dy, 'coef': kk, 'Rn': QNORM} for c in CS for k in KS for dx, dy in OFF for kk in [-2] + list(range(nq)) + [-1]]
+    qd_sparse = [st for st, vi in zip(sparse_structs, sparse_variant) if vi == 3 and st['c'] == 0]     # one (mixed-length) structure per subset of orders
+    qd_cases += [{'c': c, 'k': -1, 'dx': dx, 'dy': dy, 'coef': kk, 'Rn': QNORM, 'st': st} for st in qd_sparse for c in (1 / 50, 0)
+                 for dx, dy in ([0, 0], [5, 0]) for kk in list(range(st['c'] + sum(a + b for a, b in st['ab']))) + [-1]]
     qd_cases += [{'c': c, 'k': k, 'dx': dx, 'dy': dy, 'coef': kk, 'Rn': Rn} for Rn in RNS for c in CS for k in KS for dx, dy in OFF for kk in (-2, 0, QST['c'], -1)]
     pts = 'points: end-points, 0 and rationals inside the domain'
     return [
@@ -961,6 +1075,12 @@ def plan(tier, seed):
         ScopeUnit('poly1d_seq', seq_cases, run_poly1d_seq,
                   f'same families/parameters x {len(ns_lists)} order lists (every prefix [0..n], evens, odds, tails, sparse picks): every row of fam_der_seq '
                   'against the differentiated value routine of that order, float64 and float32', reset=reset_all),
+        ScopeUnit('poly1d_dtype', dt_cases, run_poly1d_dtype,
+                  'orders 0..4 x every family/parameter x coordinate forms {float64, int64, int32, float32 arrays; Python int, numpy int64, numpy float32, Python float scalars} at the '
+                  'integer points of the domain: fam_der and every row of fam_der_seq([0..n]) against the differentiated value routine evaluated in float64 at the same points '
+                  '(values are judged, the dtype of the result is not)', reset=reset_all),
+        ScopeUnit('zernike_dtype', zdt_cases, run_zernike_dtype,
+                  'every (n,m), n <= 4: zernike_nm_der with integer (int64, int32), float32 and Python / numpy integer scalar radial coordinates r in {0, 1}', reset=reset_all),
         ScopeUnit('high_order', high_cases, run_high_order,
                   f'threshold orders n in {HORD} (overflow of n!, gamma, Pochhammer at 171) x Legendre, Chebyshev 1-4, Jacobi (alpha,beta) in {HJAC}: fam_der (array, scalar) and '
                   f'fam_der_seq ([n] and [0,1,n-1,n]) at {len(HPTS)} interior points against the trigonometric closed forms of T_n\', U_n\', V_n\', W_n\' and against the value routine '
@@ -982,6 +1102,10 @@ def plan(tier, seed):
         ScopeUnit('zprime_q2d', zq_cases, run_zprime_q2d,
                   f'compute_z_zprime_Q2d: {len(structs)} coefficient structures (cm0 length in {{0,1,2,5}}, 1..{4 if q else 6} azimuthal orders, (len a, len b) from {lens}) x every unit '
                   'coefficient + dense: returned dr, dt against Chebyshev(u) x Fourier(t) differentiation of the returned sag', reset=reset_all),
+        ScopeUnit('zprime_q2d_sparse', zs_sparse_cases, run_zprime_q2d,
+                  f'compute_z_zprime_Q2d over EVERY sparsity pattern of the azimuthal orders: every non-empty subset of {{1..{MS}}} populated and the remaining orders below the highest '
+                  'given as empty lists, x (len a, len b) in {two-sided unequal, cosine only, sine only, mixed with one-sided and length-1 lists} x cm0 absent/present x every unit '
+                  f'coefficient + dense ({len(sparse_structs)} structures); list and ndarray coefficients', reset=reset_all),
         ScopeUnit('conic_radial', cr_cases, run_conic_radial,
                   f'(c,k) in {CS} x {KS}: sphere_sag_der, conic_sag_der (phi computed and given), der_direction_cosine_spheroid against complex-step derivatives of '
                   'sphere_sag / conic_sag / 1/phi_spheroid, cross-checked by Richardson-extrapolated central differences', reset=reset_all),
@@ -990,6 +1114,6 @@ def plan(tier, seed):
                   'derivatives of off_axis_conic_sag and 1/off_axis_conic_sigma, cross-checked by Richardson', reset=reset_all),
         ScopeUnit('q2d_and_der', qd_cases, run_q2d_and_der,
                   f'(c,k) x (dx,dy) x (base conic only, every unit coefficient of the structure {QST}, dense) at normalization_radius {QNORM}, and x normalization_radius in {RNS} for '
-                  'four coefficient choices; c includes exactly 0 as int and float (flat base); float64 ndarray coefficients reused by every call of a case: Q2d_and_der slopes against Richardson-extrapolated central '
+                  f'four coefficient choices, and {len(qd_sparse)} sparse azimuthal structures (every subset of orders populated, others empty) x every unit coefficient; ' 'c includes exactly 0 as int and float (flat base); float64 ndarray coefficients reused by every call of a case: Q2d_and_der slopes against Richardson-extrapolated central '
                   'differences (measured residual in the tolerance) of the sag it returns, in rho and theta', reset=reset_all),
     ]
